@@ -13,7 +13,7 @@ EXPLANATION = (
     "the partial page, seeks back and forwards the device flush without changing offset; physical_position = "
     "stream_position + offset; reader seek_physical = pos - (pos/page_size)*4 guarded by the file size; both align "
     "formulas; the page cursors are assigned only by the functions whose arithmetic these rules verify; read_current_page "
-    "loops over short reads and zero-fills; the constants 1024/1020/4 agree. Not decided: equality of device payload and "
+    "loops over short reads and zero-fills; the constants 1024/1020/4 agree. Also the page reader's cache typestate (who-may-write, invalidate-on-clobber, validate-before-publish). Not decided: equality of device payload and "
     "logical stream over arbitrary operation histories (state-space exploration is a different technique).")
 
 
